@@ -290,6 +290,7 @@ class CanonOptions:
     inline_properties: set = field(default_factory=set)   # names of straight-line properties to inline on 'self'-like receivers
     keep_names: set = field(default_factory=set)          # locals never inlined / renamed (kept as ('l', name))
     drop_calls: set = field(default_factory=set)          # expression-statement calls to ignore (e.g. print)
+    resolve_constants: bool = True                        # module-level literal constants (KW_*) become their value
 
 
 MUTATOR_METHODS = {"append", "extend", "insert", "pop", "popleft", "appendleft", "remove", "sort", "clear", "update",
@@ -351,6 +352,7 @@ class Canon:
         counts: dict[str, int] = {}
         order: list[str] = []
         simple: dict[str, bool] = {}
+        loop_single: set[str] = set()
 
         def bind(name: str, is_simple: bool) -> None:
             if name not in counts:
@@ -372,9 +374,15 @@ class Canon:
                 if isinstance(st, ast.Assign):
                     for t in st.targets:
                         targets(t, not in_loop)
+                        if in_loop:
+                            for nn in ast.walk(t):
+                                if isinstance(nn, ast.Name) and isinstance(nn.ctx, ast.Store):
+                                    loop_single.add(nn.id)
                 elif isinstance(st, ast.AnnAssign):
                     if st.value is not None:
                         targets(st.target, not in_loop)
+                        if in_loop and isinstance(st.target, ast.Name):
+                            loop_single.add(st.target.id)
                 elif isinstance(st, ast.AugAssign):
                     targets(st.target, False)
                     if isinstance(st.target, ast.Name):
@@ -410,6 +418,19 @@ class Canon:
                         bind(n.target.id, False)
 
         visit(body_without_docstring(self.fi.node), False)
+        # a single definition inside a loop is inlinable too, unless the name is read lexically before it
+        first_store: dict[str, tuple] = {}
+        first_load: dict[str, tuple] = {}
+        for n in ast.walk(self.fi.node):
+            if isinstance(n, ast.Name):
+                pos = (n.lineno, n.col_offset)
+                d = first_store if isinstance(n.ctx, ast.Store) else first_load
+                if n.id not in d or pos < d[n.id]:
+                    d[n.id] = pos
+        for name in list(simple):
+            if counts.get(name) == 1 and not simple[name] and name in loop_single:
+                if name not in first_load or first_load[name] > first_store.get(name, (0, 0)):
+                    simple[name] = True
         # locals with object identity (mutated through a method, a store or a heap primitive) are never inlined
         mutated: set[str] = set()
 
@@ -486,6 +507,12 @@ class Canon:
         if e.id in self.inlinable:
             # used before (or without) its definition being seen on this walk: keep symbolic
             return ("u", e.id)
+        if self.model is not None and self.opts.resolve_constants:
+            v = self.model.global_constant(self.fi.module, e.id)
+            if v is not None:
+                if isinstance(v, bool):
+                    return K_TRUE if v else K_FALSE
+                return k_str(v) if isinstance(v, str) else k_num(v)
         return ("g", e.id)
 
     def _e_Attribute(self, e: ast.Attribute) -> S:
